@@ -285,9 +285,9 @@ where
                 let inserted =
                     self.min_store
                         .update_with_maxtracker(k, &x, i, &mut self.max_tracker);
-                if !inserted {
-                    break;
-                }
+                // a refusal at position k says nothing about the other positions (their maxima can be larger):
+                // the next, larger, x must still be offered to them, so we do not leave the loop here.
+                let _ = inserted;
                 // x is growing, so even if last update was possible at slot k, it is possible another value of x
                 // cannot be inserted (if k was last possible index), if no update possible after preceding update, we can exit
                 if !self.max_tracker.is_update_possible(x) {
